@@ -182,4 +182,17 @@ theorem fork_keyspace_disjoint (id id' hk hk' : List Char) (h1 : id.length = 32)
 
 example : (chainKeys (List.replicate 32 'a') (List.replicate 8 'h')).length = 4 := rfl
 
+/-! ### all the state there is -/
+
+/-- The chain object has exactly the state the model has: `count`, `lastGroup`, the store
+    (`groups`) — plus the lock and the joined-groups store, which the property does not touch.
+    A cache or any other new field in front of the store has to be modelled before this holds again.
+    The only package-level variable written is the singleton pointer at start-up, and no network /
+    fork-schedule flag is read: the behaviour does not depend on the chain configuration or height. -/
+theorem state_inventory :
+    groupChainFields = ["count uint64", "lock sync.RWMutex", "lastGroup *types.Group",
+                        "groups db.Database", "joinedGroups *db.LDBDatabase"] ∧
+    packageStateWrites = ["initGroupChain: groupChainImpl"] ∧
+    forkFlagReads = [] := by decide
+
 end Rangers.Props.C19Facts
